@@ -1840,6 +1840,24 @@ def m_recip(it, st, fr, t, args, ga):
     return I.Num(t_div(ONE, x.term, st.ctx), x.ty)
 
 
+def m_float_to_bits(it, st, fr, t, args, ga):
+    """f32::to_bits: an injective function of the float; the only fact used is 'equal bits => equal value' (see Interp.binop)"""
+    x = _num(args[0])
+    c = x.term.const_value()
+    if c is not None and x.ty == 'f32':
+        import struct
+        try:
+            return I.Num(Poly.const(struct.unpack('<I', struct.pack('<f', float(c)))[0]), 'u32')
+        except (OverflowError, struct.error):
+            pass
+    r = t_app('float_bits', [x.term])
+    a = r.as_single_atom()
+    bits = 32 if x.ty == 'f32' else 64
+    st.ctx.ranges[a] = (Fr(0), Fr(2 ** bits - 1))
+    st.ctx.int_atoms.add(a)
+    return I.Num(r, 'u32' if bits == 32 else 'u64')
+
+
 def m_mul_add(it, st, fr, t, args, ga):
     a, b, c = _num(args[0]), _num(args[1]), _num(args[2])
     return I.Num(a.term * b.term + c.term, a.ty)
@@ -1979,6 +1997,8 @@ def registry():
         'core::num::<impl i32>::checked_add': m_checked('add'),
         'core::num::<impl i32>::checked_sub': m_checked('sub'),
         'core::num::<impl i32>::checked_mul': m_checked('mul'),
+        'core::f32::<impl f32>::to_bits': m_float_to_bits,
+        'core::f64::<impl f64>::to_bits': m_float_to_bits,
         'core::f32::<impl f32>::recip': m_recip,
         'core::f32::<impl f32>::mul_add': m_mul_add,
         'core::option::Option::<T>::map_or_else': m_map_or_else,
